@@ -55,6 +55,8 @@ fn cfg(build: Build, logger: LoggerKind, level: u8, key: [u64; 2]) -> Config {
         level,
         build,
         iface: None,
+        iface_ips: Vec::new(),
+        iface_flags: 0,
     }
 }
 
@@ -402,6 +404,57 @@ fn sc_c01(seed: u64, thorough: bool) -> Vec<Scenario> {
                 let ck = fl.cookie(&key);
                 steps.push(Step::Frame(fl.seg(0, 0, F_SYN, &[])));
                 steps.push(Step::Frame(fl.seg(1, ck.wrapping_add(1), F_PSH | F_ACK, &call.encode_tcp())));
+            }
+        }
+        // counts that pass 8 bits within ONE segment: a call with runs of 255 / 256 / 257 / 1000
+        // empty or reply-typed records behind it on an RPC connection
+        for (k, n) in [255usize, 256, 257, 1000].into_iter().enumerate() {
+            for kind in 0..2u16 {
+                let fl = Flow::v4(43400 + k as u16 * 2 + kind, 111);
+                let ck = fl.cookie(&key);
+                let call = rpc::gen_call(&mut rng);
+                let mut seg = call.encode_tcp();
+                for _ in 0..n {
+                    if seg.len() > 3900 {
+                        break;
+                    }
+                    if kind == 0 {
+                        seg.extend_from_slice(&[0x80, 0, 0, 0]);
+                    } else {
+                        // the shortest reply-typed record: xid, REPLY, MSG_DENIED, AUTH_ERROR, why
+                        seg.extend_from_slice(&[0x80, 0, 0, 12]);
+                        seg.extend_from_slice(&rng.u32().to_be_bytes());
+                        seg.extend_from_slice(&[0, 0, 0, 1, 0, 0, 0, 1]);
+                    }
+                }
+                steps.push(Step::Frame(fl.seg(0, 0, F_SYN, &[])));
+                steps.push(Step::Frame(fl.seg(1, ck.wrapping_add(1), F_PSH | F_ACK, &seg)));
+            }
+        }
+        // SMB1 negotiates offering a hundred or two dialects the responder does not know, the
+        // names made of bytes above 0x7f (whatever renders, cuts or compares them as text meets
+        // multi-byte characters at every offset; both parities)
+        for (k, count) in [60usize, 110, 200].into_iter().enumerate() {
+            for lead in 0..2usize {
+                let mut d = Vec::new();
+                for j in 0..count {
+                    d.push(2u8);
+                    if j == 0 {
+                        d.extend(std::iter::repeat(b'x').take(lead));
+                    }
+                    d.extend(std::iter::repeat(0xe9u8).take(5 + j % 7));
+                    d.push(0);
+                }
+                let mut m = smb::gen_hdr1(&mut rng, 0x72).encode();
+                m.push(0);
+                m.extend_from_slice(&(d.len() as u16).to_le_bytes());
+                m.extend_from_slice(&d);
+                let m = smb::nbt(&m);
+                steps.push(Step::Frame(Flow::v4(43500 + (k * 2 + lead) as u16, 445).udp(&m)));
+                let fl = Flow::v6(43520 + (k * 2 + lead) as u16, 445);
+                let ck = fl.cookie(&key);
+                steps.push(Step::Frame(fl.seg(0, 0, F_SYN, &[])));
+                steps.push(Step::Frame(fl.seg(1, ck.wrapping_add(1), F_PSH | F_ACK, &m)));
             }
         }
         out.push(Scenario {
@@ -1051,6 +1104,84 @@ fn sc_scale(seed: u64, thorough: bool, which: &str) -> Vec<Scenario> {
                 steps,
                 samples: 0,
             });
+        } else if which == "flood" {
+            // unvalidated traffic from ever new sources: SYNs, datagrams, data segments with a wrong
+            // acknowledgement number, both IP versions - nothing of it may leave anything behind
+            let n: u32 = std::env::var("VERIF_FLOOD").ok().and_then(|s| s.parse().ok()).unwrap_or(if thorough { 1_000_000 } else { 200_000 });
+            let mut steps = Vec::new();
+            for i in 0..n {
+                let sport = 1024 + (i % 50_000) as u16;
+                let fl = if i % 3 == 2 {
+                    Flow {
+                        src: IpAddr::V6(Ipv6Addr::new(0x2001, 0xdb8, 0xf00d, (i >> 16) as u16, 0, 0, (i >> 8) as u16, i as u16)),
+                        dst: IpAddr::V6(node6()),
+                        sport,
+                        dport: 443,
+                    }
+                } else {
+                    Flow {
+                        src: IpAddr::V4(Ipv4Addr::from(0xcb00_0000u32.wrapping_add(i.wrapping_mul(2654435761) & 0x00ff_ffff))),
+                        dst: IpAddr::V4(node4()),
+                        sport,
+                        dport: 80,
+                    }
+                };
+                steps.push(Step::Frame(match i % 8 {
+                    0 | 1 | 2 | 3 | 4 => fl.seg(rng.u32(), 0, F_SYN, &[]),
+                    5 => fl.udp(b"\x00\x01\x00\x00\x21\x12\xa4\x42abcdefghijkl"),
+                    6 => fl.seg(rng.u32(), rng.u32(), F_PSH | F_ACK, b"GET / HTTP/1.1\r\n\r\n"),
+                    _ => fl.seg(rng.u32(), rng.u32(), F_ACK, &[]),
+                }));
+            }
+            out.push(Scenario {
+                name: format!("flood-{}-{}", n, build.as_str()),
+                cfg: cfg(build, LoggerKind::None, 0, key),
+                start_ms: START,
+                steps,
+                samples: 0,
+            });
+            if thorough {
+                break;
+            }
+        } else if which == "mass-validated" {
+            // more validated connections in one life of the connection table than any bound one
+            // would plausibly put on it (2^16, 2^18, thorough: 2^20): connections opened before
+            // the crowd and after it behave like any other
+            let n: u32 = std::env::var("VERIF_MASS").ok().and_then(|s| s.parse().ok()).unwrap_or(if thorough { 1_100_000 } else { 270_000 });
+            let mk = |sport: u16, dport: u16| if v6 { Flow::v6(sport, dport) } else { Flow::v4(sport, dport) };
+            let mut steps = Vec::new();
+            let req = b"GET /index.html HTTP/1.1\r\nHost: example.test\r\n\r\n";
+            // A: half a request sent; B: one request answered
+            let (fa, fb) = (mk(1000, 80), mk(1001, 80));
+            let (ca, cb) = (fa.cookie(&key), fb.cookie(&key));
+            steps.push(Step::Frame(fa.seg(500, 0, F_SYN, &[])));
+            steps.push(Step::Frame(fa.seg(501, ca.wrapping_add(1), F_PSH | F_ACK, &req[..20])));
+            steps.push(Step::Frame(fb.seg(700, 0, F_SYN, &[])));
+            steps.push(Step::Frame(fb.seg(701, cb.wrapping_add(1), F_PSH | F_ACK, req)));
+            let dports = [21u16, 22, 23, 25, 53, 80, 110, 111, 135, 139, 143, 443, 445, 993, 3306, 3389, 5900, 8000, 8080, 8443];
+            for i in 0..n {
+                let f = mk(1024 + (i % 64_000) as u16, dports[(i / 64_000) as usize % dports.len()]);
+                let c = f.cookie(&key);
+                steps.push(Step::Frame(f.seg(9, c.wrapping_add(1), F_PSH | F_ACK, b"\n")));
+            }
+            // A completes its request; B sends another one; C is new and sends a request in two parts
+            steps.push(Step::Frame(fa.seg(521, ca.wrapping_add(1), F_PSH | F_ACK, &req[20..])));
+            steps.push(Step::Frame(fb.seg(701 + req.len() as u32, cb.wrapping_add(1), F_PSH | F_ACK, req)));
+            let fc = mk(1002, 80);
+            let cc = fc.cookie(&key);
+            steps.push(Step::Frame(fc.seg(900, 0, F_SYN, &[])));
+            steps.push(Step::Frame(fc.seg(901, cc.wrapping_add(1), F_PSH | F_ACK, &req[..10])));
+            steps.push(Step::Frame(fc.seg(911, cc.wrapping_add(1), F_PSH | F_ACK, &req[10..])));
+            out.push(Scenario {
+                name: format!("mass-validated-{}-{}-{}", n, if v6 { "v6" } else { "v4" }, build.as_str()),
+                cfg: cfg(build, LoggerKind::None, 0, key),
+                start_ms: START,
+                steps,
+                samples: 0,
+            });
+            if thorough {
+                break; // one build is enough at this size
+            }
         } else {
             let n = if thorough { 5_000u32 } else { 1_300 };
             let fl = if v6 { Flow::v6(40_000, 80) } else { Flow::v4(40_000, 8080) };
@@ -1093,7 +1224,13 @@ pub fn scenarios(prop: &str, tier: &str, seed: u64) -> Vec<Scenario> {
             v
         }
         "C13" => sc_scale(seed, thorough, "keepalive"),
-        "C07" | "C09" => sc_flags(seed, thorough),
+        "C09" => {
+            let mut v = sc_flags(seed, thorough);
+            v.extend(sc_scale(seed, thorough, "mass-validated"));
+            v.extend(sc_scale(seed, thorough, "flood"));
+            v
+        }
+        "C07" => sc_flags(seed, thorough),
         "C03" => {
             let mut v = sc_flags(seed, false);
             v.extend(sc_c15(seed, false));
@@ -1105,8 +1242,16 @@ pub fn scenarios(prop: &str, tier: &str, seed: u64) -> Vec<Scenario> {
             v
         }
         "C05" => sc_c05(seed, thorough),
-        "C11" => sc_c11(seed, thorough),
-        "C08" => sc_c08(seed),
+        "C11" => {
+            let mut v = sc_c11(seed, thorough);
+            v.extend(sc_scale(seed, thorough, "mass-validated"));
+            v
+        }
+        "C08" => {
+            let mut v = sc_c08(seed);
+            v.extend(sc_scale(seed, thorough, "mass-validated"));
+            v
+        }
         "C15" => sc_c15(seed, thorough),
         "C18" => sc_c18(seed, thorough),
         "C10" => sc_c10(seed, thorough),
